@@ -1,4 +1,77 @@
-/- Line protocol of C08: placeholder until the model of this property is built. -/
+import BertE.Drv.C01
+import BertE.Model.FlowExt
+/-
+Line protocol of C08 (on top of the system model's protocol, see Drv/C01.lean). `<history>` is a C01 line body
+`init ...;item;item;...`; all items but the last are executed with `step`, the LAST item is the job looked at.
+
+  `C08 ops <history>`
+      the remote operations of the last job, in order, joined by `;`:
+      `push:<ref>,<ref>..` · `pushall:<prune 0/1>` · `del:<ref>` · `tag:<dest>`   (refs as in C01: D: W: Q: QW: O:)
+  `C08 sched <k> <create|advance|force|point> <name> <commit | - | parents | commit> <history>`
+      a third party acts immediately before operation `k` (0-based) of the last job; the job stops at the first
+      atomic push that is refused (as the real job does) or — a gate re-evaluated after the third party acted may
+      end the job early — after `j` operations, `k < j ≤ length`. Answer: the observations of the final states
+      (C01 format) for every such `j`, shortest job first, joined by `#`.
+-/
 namespace BertE.Drv.C08
-def handle (_args : List String) : String := "bad-op"
+open BertE.Git BertE.Flow BertE.FlowExt BertE.Drv.C01
+
+def showOp : Op → String
+  | .push ups => "push:" ++ ",".intercalate (ups.map (fun rc => showRef rc.1))
+  | .pushAll _ prune => "pushall:" ++ (if prune then "1" else "0")
+  | .delete r => "del:" ++ showRef r
+
+def showOpT : OpT → String
+  | .br op => showOp op
+  | .tag d _ => "tag:" ++ showDest d
+
+/-- run all items but the last; return the state and the last event -/
+def runTo (s : Sys) : List String → Option (Sys × Event)
+  | [] => none
+  | [it] => (parseEvent ((it.splitOn " ").filter (· ≠ ""))).map (fun ev => (s, ev))
+  | it :: rest =>
+    match parseEvent ((it.splitOn " ").filter (· ≠ "")) with
+    | none => none
+    | some ev => runTo (step s ev).1 rest
+
+def withHistory (ws : List String) (f : Sys → Event → String) : String :=
+  let line := " ".intercalate ws
+  match line.splitOn ";" with
+  | [] => "bad-op"
+  | first :: items =>
+    match (first.splitOn " ").filter (· ≠ "") with
+    | "init" :: uq :: sq :: dests =>
+      match dests.mapM parseDest with
+      | none => "bad-op dests"
+      | some ds =>
+        match runTo (initSys (uq == "1") (sq == "1") ds) items with
+        | none => "bad-op history"
+        | some (s, ev) => f s ev
+    | _ => "bad-op init"
+
+def parseThird (action name arg : String) : Option Third :=
+  match action with
+  | "create" => arg.toNat?.map (fun c => Third.create name c)
+  | "advance" => some (Third.advance name)
+  | "force" => (parseNats arg ",").map (fun ps => Third.force name ps)
+  | "point" => arg.toNat?.map (fun c => Third.point name c)
+  | _ => none
+
+def handle (args : List String) : String :=
+  match args with
+  | "ops" :: ws =>
+    withHistory ws (fun s ev => ";".intercalate ((planT s ev).map showOpT))
+  | "sched" :: k :: action :: name :: arg :: ws =>
+    match k.toNat?, parseThird action name arg with
+    | some k, some x =>
+      withHistory ws (fun s ev =>
+        let p := plan s ev
+        let js := (List.range (p.ops.length + 1)).filter (fun j => k < j)
+        let js := if js.isEmpty then [p.ops.length] else js
+        "#".intercalate (js.map (fun j =>
+          let r := applyOpsWithAbort p.g noRej s.remote (p.ops.take j) k x
+          observe { s with g := r.1, remote := r.2 } p.outcome)))
+    | _, _ => "bad-op sched"
+  | _ => "bad-op"
+
 end BertE.Drv.C08
